@@ -266,6 +266,8 @@ impl Bbr {
         let bdp = self.min_rtt.as_micros() as u64 * bw;
         let bdpf = bdp as f64;
         let cwnd = ((gain as f64 * bdpf) / 1_000_000f64) as u64;
+        #[cfg(feature = "quinn_rs_quinn_verif")]
+        crate::connection::verif::tap("tc", cwnd);
         // BDP estimate will be zero if no bandwidth samples are available yet.
         if cwnd == 0 {
             return self.init_cwnd;
@@ -318,6 +320,11 @@ impl Bbr {
             // Add the most recent excess acked.  Because CWND never decreases in
             // STARTUP, this will automatically create a very localized max filter.
             target_window += excess_acked;
+        }
+        #[cfg(feature = "quinn_rs_quinn_verif")]
+        {
+            crate::connection::verif::tap("tw", target_window);
+            crate::connection::verif::tap("glt", (self.cwnd_gain < target_window as f32) as u64);
         }
         // Instead of immediately setting the target CWND as the new one, BBR grows
         // the CWND towards |target_window| by only increasing it |bytes_acked| at a
@@ -391,6 +398,30 @@ impl Bbr {
     }
 }
 
+#[cfg(feature = "quinn_rs_quinn_verif")]
+impl Bbr {
+    /// the window-relevant integer fields, in the order the `cc` executor prints them
+    pub(crate) fn verif_state(&self) -> [u64; 15] {
+        [
+            self.mode as u64,
+            self.is_at_full_bandwidth as u64,
+            self.recovery_state as u64,
+            self.recovery_window,
+            self.cwnd,
+            self.min_cwnd,
+            self.init_cwnd,
+            self.current_mtu,
+            self.loss_state.lost_bytes,
+            self.max_acked_packet_number,
+            self.max_sent_packet_number,
+            self.end_recovery_at_packet_number,
+            self.current_round_trip_end_packet_number,
+            self.round_count,
+            self.acked_bytes,
+        ]
+    }
+}
+
 impl Controller for Bbr {
     fn on_sent(&mut self, now: Instant, bytes: u64, last_packet_number: u64) {
         self.max_sent_packet_number = last_packet_number;
@@ -427,6 +458,11 @@ impl Controller for Bbr {
             self.round_count,
             self.max_bandwidth.get_estimate(),
         );
+        #[cfg(feature = "quinn_rs_quinn_verif")]
+        {
+            crate::connection::verif::tap("ba", bytes_acked);
+            crate::connection::verif::tap("ex", excess_acked);
+        }
         self.max_bandwidth.end_acks(self.round_count, app_limited);
         if let Some(largest_acked_packet) = largest_packet_num_acked {
             self.max_acked_packet_number = largest_acked_packet;
@@ -456,6 +492,11 @@ impl Controller for Bbr {
 
         self.maybe_enter_or_exit_probe_rtt(now, is_round_start, in_flight, app_limited);
 
+        #[cfg(feature = "quinn_rs_quinn_verif")]
+        {
+            crate::connection::verif::tap("mode", self.mode as u64);
+            crate::connection::verif::tap("full", self.is_at_full_bandwidth as u64);
+        }
         // After the model is updated, recalculate the pacing rate and congestion window.
         self.calculate_pacing_rate();
         self.calculate_cwnd(bytes_acked, excess_acked);
